@@ -68,15 +68,36 @@ example : ("/ps/MK/files/f" : String) ≠ "" ∧ parsePath "/ps/MK/files/f" = so
     isPrefix ["ps", "MK", "files", "f"] ["ps", "outs"] = false ∧
     isPrefix (["ps", "outs"] ++ ["f.txt"]) ["ps", "MK", "files", "f"] = false := by decide
 
-/-- A file that does not exist (the stage did not create it) is recorded as
-null and the file system is untouched. -/
+/-- A file that does not exist (the stage did not create it), and whose
+destination under outs/ holds nothing, is recorded as null and the file system
+is untouched. -/
 theorem missing_is_null (ps outs : Path) (name s : String) (p : Path) (fs : FS)
-    (hs : s ≠ "") (hp : parsePath s = some p) (hnone : fs.get p = none) :
+    (hs : s ≠ "") (hp : parsePath s = some p) (hnone : fs.get p = none)
+    (hfree : fs.get (outs ++ [name]) = none) :
     moveOutFile ps outs name (.str s) fs = (.null, fs) :=
-  moveOutFile_missing ps outs name s p fs hs hp hnone
+  moveOutFile_missing ps outs name s p fs hs hp hnone hfree
+
+/-- Regenerated obligation: in the current source the "recorded path does not
+exist" branch of `moveOutFile` first tries to recover a file that an
+interrupted earlier post-process had already moved to outs/ (defect F22,
+repaired); on a tree where it only reports null this fails. -/
+theorem restart_recovers_moved_outputs : Gen.postProcessRecoversMoved = true := by decide
+
+/-- Restart after a kill between the rename into outs/ and leaving the symlink
+behind (F22, repaired): the recorded path holds nothing, but it lies inside the
+pipestance and its destination already holds a file or directory.  The output
+is NOT reported as null: the recorded value becomes the destination and the
+link back is put in place now; the destination itself is untouched. -/
+theorem missing_but_moved_is_recovered (ps outs : Path) (name s : String) (p : Path) (e : Entry) (fs : FS)
+    (hs : s ≠ "") (hp : parsePath s = some p) (hnone : fs.get p = none) (hin : inside ps p = true)
+    (hd : fs.get (outs ++ [name]) = some e) (hl : e.isLink = false) :
+    moveOutFile ps outs name (.str s) fs =
+      (.str (renderPath (outs ++ [name])),
+        symlinkAt fs p (.rel (relPath p.dropLast (outs ++ [name])))) :=
+  moveOutFile_recovered ps outs name s p e fs hs hp hnone hin hd hl
 
 example : parsePath "/ps/MK/files/nope" = some ["ps", "MK", "files", "nope"] ∧
-    exFS.get ["ps", "MK", "files", "nope"] = none := by decide
+    exFS.get ["ps", "MK", "files", "nope"] = none ∧ exFS.get (["ps", "outs"] ++ ["nope"]) = none := by decide
 
 /-- A regular file or directory outside the pipestance stays where it is, its
 recorded value is unchanged, and outs/name becomes a symlink to it. -/
